@@ -165,6 +165,49 @@ static void caseC10(uint64_t idx, vh::Rng& g)
 		}
 		// operands unchanged (as dumps)
 		if (!(faObserve(A) == a0) || !(faObserve(B) == b0)) R->violation("C10/operand-changed", "");
+		if (g.chance(1, 2))
+		{	// second level: the same operations on RESULTS of operations (objects whose internal state has a
+			// history); the reference is computed from what the operands' own dumps denote
+			R->count("second-level-cases");
+			auto derive = [&](int k, std::string& name) -> FA {
+				switch (k)
+				{
+					case 0: name = "useless(A)"; return A.RemoveUselessStates();
+					case 1: name = "reverse(A)"; return A.Reverse();
+					case 2: name = "isect(A,B)"; return FA::Intersection(A, B);
+					case 3: name = "candidate(A)"; return A.GetCandidateTree();
+					case 4: name = "union(A,B)"; return FA::Union(A, B);
+					case 5: name = "unreach(B)"; return B.RemoveUnreachableStates();
+					case 6: name = "reverse(reverse(B))"; return B.Reverse().Reverse();
+					default: name = "useless(B)"; return B.RemoveUselessStates();
+				} };
+			std::string nx, ny; FA X = derive(static_cast<int>(g.below(8)), nx), Y = derive(static_cast<int>(g.below(8)), ny);
+			RFA x = faObserve(X), y = faObserve(Y);
+			std::string what = "[" + nx + "," + ny + "]"; R->count("second-level:" + nx);
+			R->phase("2nd-level Union " + what); { RFA u = faObserve(FA::Union(X, Y)); bin("second-level/union", x, y, u, true); }
+			R->phase("2nd-level Intersection " + what); { RFA u = faObserve(FA::Intersection(X, Y)); bin("second-level/isect", x, y, u, false); }
+			R->phase("2nd-level Reverse " + what); { RFA u = faObserve(X.Reverse()); same("second-level/reverse", rm::mirror(x), u); }
+			R->phase("2nd-level RemoveUselessStates " + what); { RFA u = faObserve(X.RemoveUselessStates()); same("second-level/useless", x, u); }
+			R->phase("2nd-level RemoveUnreachableStates " + what); { RFA u = faObserve(Y.RemoveUnreachableStates()); same("second-level/unreach", y, u); }
+			R->phase("2nd-level GetCandidateTree " + what);
+			{
+				RFA u = faObserve(X.GetCandidateTree()); rm::JointW K = rm::jointWord({&x, &u}, nsym); bool ne = false, nea = false, sub = true;
+				for (auto& m : K.reach) { if (K.acc(m, 1) && !K.acc(m, 0)) sub = false; if (K.acc(m, 1)) ne = true; if (K.acc(m, 0)) nea = true; }
+				if (!K.capped && !sub) R->violation("C10/second-level/candidate/not-sublanguage", what);
+				if (!K.capped && nea && !ne) R->violation("C10/second-level/candidate/empty-witness", what);
+			}
+			R->phase("2nd-level inclusion " + what);
+			{	// and inclusion between results (C09's oracle on derived operands): both algorithms, both directions
+				rm::JointW K = rm::jointWord({&x, &y}, nsym);
+				if (!K.capped)
+				{
+					bool ref = true; for (auto& m : K.reach) if (K.acc(m, 0) && !K.acc(m, 1)) ref = false;
+					InclParam ip; ip.SetAlgorithm(g.chance(1, 2) ? InclParam::e_algorithm::antichains : InclParam::e_algorithm::congruences);
+					bool r = FA::CheckInclusion(X, Y, ip); if (r != ref) R->violation(std::string("C10/second-level/inclusion") + (r ? "/falsely-included" : "/falsely-rejected"), what);
+				}
+			}
+			if (!(faObserve(X) == x) || !(faObserve(Y) == y)) R->violation("C10/second-level/operand-changed", what);
+		}
 		R->phase("Reverse");
 		{ FA rv = A.Reverse(); R->phase("Reverse: DumpToString"); RFA u = faObserve(rv); same("reverse", rm::mirror(a), u); }
 	}
